@@ -146,9 +146,9 @@ def toyLaws : Laws toy where
   inv_own := fun _ _ => trivial
   start_obs := fun _ _ _ _ => rfl
   start_own := fun _ _ _ _ => trivial
-  step_obs := fun _ _ _ => rfl
+  step_obs := fun _ _ _ _ => rfl
   step_own := fun _ _ _ _ => trivial
-  finish_obs := fun _ _ _ => rfl
+  finish_obs := fun _ _ _ _ => rfl
   put_inv := fun _ _ => rfl
   decode_vis := by
     intro a b _
